@@ -4,6 +4,8 @@ import TmVerif.Model.Graph
 Line protocol for C26 (graphs are `parseNatss` adjacency rows):
 
   transpose <g>          → rows of the transposed graph            | `panic` when `g` is not well formed
+  matrix <g>             → `<adj> <graph>` of NewMatrix+AddEdge alone (no Closure): ties the bit layout of
+                           AddEdge/HasEdge/Graph, which the model abstracts to one Bool per cell
   closure <g>            → `<adj> <graph>`: adjacency by HasEdge of the closed matrix, and `Graph()`
                            (`_` for the empty matrix: `Graph()` is not called on it)
   lpath <g>              → `nil` | path                             | `panic`
@@ -49,6 +51,15 @@ def judgeCase (ans : List String) (cas : List String) : Option String :=
         if r.length == g.length && r.map sortRow == (transpose g).map sortRow then some "holds"
         else some "violates: the answer is not the reversed edge multiset"
     | _ => some "violates: malformed answer"
+  | ["matrix", g] => do
+    let g ← parseNatss g
+    let want := showNatss (Matrix.ofGraph g).graph
+    match ans with
+    | [a, gr] =>
+      if a != want then some s!"violates: HasEdge after AddEdge differs from the added edges {want}"
+      else if g.length > 0 && gr != want then some s!"violates: Graph() differs from the added edges {want}"
+      else some "holds"
+    | _ => some "violates: panics or malformed answer"
   | ["closure", g] => do
     let g ← parseNatss g
     let want := showNatss (closureAdj g)
@@ -94,6 +105,10 @@ def handle (args : List String) : Option String :=
     let g ← parseNatss g
     if !wfB g then return "panic"
     some (showNatss (transpose g))
+  | ["matrix", g] => do
+    let g ← parseNatss g
+    let a := showNatss (Matrix.ofGraph g).graph
+    some s!"{a} {a}"
   | ["closure", g] => do
     let g ← parseNatss g
     let a := showNatss (closureAdj g)
